@@ -3,6 +3,7 @@ package sim
 import (
 	"encoding/hex"
 	"fmt"
+	"os"
 	"sort"
 	"time"
 
@@ -132,6 +133,9 @@ func (t *Tracker) AfterEnd(w *World) {
 			if r.Rec.Accepted && !t.accepted[k] {
 				t.accepted[k] = true
 				ev := DecodeEvent(r.Rec.Event)
+				if os.Getenv("MHUBSIM_DEBUG") != "" && ev != nil {
+					fmt.Fprintf(os.Stderr, "APPLIED h=%d %s nonce %d votes=%v event=%s\n", w.N().Header.Height, ch, r.Nonce, r.Rec.Votes, ev.String())
+				}
 				t.Applied = append(t.Applied, Applied{Chain: ch, Nonce: r.Nonce, Rec: r, Event: ev})
 			}
 		}
